@@ -159,6 +159,21 @@ Proof. exact flush_total. Qed.
 Theorem C09_flush_spec_ok_on_model : forall f ms, spec_flush_ok f ms (run_flush f ms) = true.
 Proof. exact FlushProofs.spec_flush_ok_on_model. Qed.
 
+(* the name under which a registered metric leaves the exporter: global prefix, '.', registered name -
+   except names beginning with the telemetry namespace, which go out unchanged; the decision is made in
+   State::flush, not in the writer *)
+Theorem C09_e2e_name_is_prefixed : forall f ms ps,
+  f_max f < two32 -> forallb (fun m => values_nonempty (expected_op f m)) ms = true ->
+  run_flush f ms = Some ps ->
+  forall p, In p ps ->
+  exists m ch, In m ms /\ ch <> [] /\
+    p = frame (f_lp f) (render (expect (metric_cfg f m) (expected_op f m) ch)) /\
+    m_name (expect (metric_cfg f m) (expected_op f m) ch) = e2e_name (f_prefix f) (metric_name m) /\
+    (wf_msg (expect (metric_cfg f m) (expected_op f m) ch) = true ->
+     exists M, parse_msg (render (expect (metric_cfg f m) (expected_op f m) ch)) = Some M /\
+               m_name M = e2e_name (f_prefix f) (metric_name m)).
+Proof. exact FlushProofs.e2e_name_is_prefixed. Qed.
+
 (* all case kinds of the correspondence check (writer op sequences, builder op sequences, one-flush) *)
 Theorem C09_xspec_ok_on_model : forall c, XExec.spec_ok c (XExec.run_case c) = true.
 Proof. exact XProofs.xspec_ok_on_model. Qed.
